@@ -15,7 +15,7 @@ DEN = 4096
 SHARD = 30
 LABELS = ['A', 'B', 'C']
 SYMS = ['Li', 'S', 'P', 'O']
-KINDS = ['cubic', 'ortho', 'mono', 'hexlike', 'tri', 'tri_full']
+KINDS = ['cubic', 'ortho', 'mono', 'hexlike', 'hex', 'tri', 'tri_full']
 RULE = ('cases = trajectories with 1-3 diffusing Li atoms and 1-4 framework atoms of 1-3 other species (2^-12 grid, 3-7 frames) in 6 lattice classes '
         '(optionally rotated), site sets with 1-3 labels whose order differs from the site order, Li atoms hopping between sites and the transit region, '
         'x cut-off x resolution; cases in which some distance lies within 1e-9 of a bin edge are excluded and counted; per-state counts and the '
